@@ -566,10 +566,10 @@ func c04FmRun(c *c04FmCase) (out map[string]c04FmOut, err error) {
 // elsewhere (keys-split), a mapped string arrives in pieces, nil / wrong values under mapped keys,
 // a mapped key no chunk carries.
 func c04FmShape(c *c04FmCase) (shape string, neverCarried bool) {
-	split, pieces, hasNil, hasWrong := false, false, false, false
+	split, pieces, hasNil, hasWrong, nilBeside := false, false, false, false, false
 	for _, s := range c.Sources {
 		for _, m := range s.Maps {
-			n := 0
+			n, nils, goods := 0, 0, 0
 			for _, ch := range s.Chunks {
 				found := false
 				for _, kv := range ch {
@@ -577,12 +577,18 @@ func c04FmShape(c *c04FmCase) (shape string, neverCarried bool) {
 						found = true
 						hasNil = hasNil || kv[1] == "nil"
 						hasWrong = hasWrong || kv[1] == "wrong"
+						if kv[1] == "nil" {
+							nils++
+						} else if strings.HasPrefix(kv[1], "good:") {
+							goods++
+						}
 					}
 				}
 				if found {
 					n++
 				}
 			}
+			nilBeside = nilBeside || (nils > 0 && goods > 0)
 			switch {
 			case n == 0:
 				neverCarried = true
@@ -608,6 +614,9 @@ func c04FmShape(c *c04FmCase) (shape string, neverCarried bool) {
 	}
 	if hasWrong {
 		parts = append(parts, "wrong")
+	}
+	if nilBeside {
+		parts = append(parts, "nil-beside-value")
 	}
 	if neverCarried {
 		parts = append(parts, "never-carried")
@@ -716,6 +725,18 @@ func c04FmOne(ctx *vh.Ctx, c *c04FmCase) error {
 			ctx.Res.Dist("fmap:never-carried-key:" + p)
 			continue
 		}
+		if strings.Contains(shape, "nil-beside-value") && (c.Target == "mapstr" || c.Target == "struct") &&
+			inv.Class == "ok" && o.Class == "err" && model["invoke"].Err == nil && model[p].Err != nil {
+			// a chunk carries an explicit nil under a key whose value other chunks carry, and the target
+			// field is checked and cannot be nil: whole-value concatenation skips the nil, the per-chunk
+			// checker refuses it. The model describes the code as it is (compared above); the paradigms
+			// disagree - one signature for this mechanism, whatever the stream paradigm and target
+			ctx.Res.Dist("fmap:nil-beside-value:" + p)
+			ctx.Res.Disagree(vh.Disagreement{Signature: "C04:fmap:paradigms:invoke=ok,streamed=err:nil-beside-value-under-checked-key",
+				What: fmt.Sprintf("Invoke succeeds (%v), %s fails (%s): a chunk carries nil under a key whose value other chunks carry", inv.Val, p, o.Info),
+				Case: c, Model: model, Impl: impl})
+			continue
+		}
 		if inv.Class != o.Class || (inv.Class == "ok" && vh.Canon(inv.Val) != vh.Canon(o.Val)) {
 			ctx.Res.Disagree(vh.Disagreement{Signature: "C04:fmap:paradigms:invoke=" + inv.Class + "," + p + "=" + o.Class + tag,
 				What: fmt.Sprintf("Invoke and %s disagree on field-mapped map chunks: %v %s vs %v %s", p, inv.Val, inv.Info, o.Val, o.Info),
@@ -810,6 +831,16 @@ func c04FmGen(r *vh.Rand) *c04FmCase {
 					lo, hi := j*len(text)/np, (j+1)*len(text)/np
 					chunks[p][key] = "good:" + text[lo:hi]
 				}
+				// an explicit nil under the key in a chunk before / between / after the ones that carry
+				// the value: concatenation skips it ("nothing to concat"), so the whole value is unchanged
+				if np < nch && r.Chance(12) {
+					for _, p := range r.Perm(nch) {
+						if _, has := chunks[p][key]; !has {
+							chunks[p][key] = "nil"
+							break
+						}
+					}
+				}
 			}
 		}
 		if r.Chance(35) { // an unmapped key
@@ -853,6 +884,13 @@ func c04FmFixed() []*c04FmCase {
 			out = append(out, &c04FmCase{Kind: "fmap", Target: target, Sink: sink, Consumer: "t", Sources: []c04FmSource{
 				{Key: "start", Chunks: [][][2]string{ch("a", "nil"), ch("b", "good:y")}, Maps: ab}}})
 		}
+	}
+	// an explicit nil under a key before / after the chunk that carries its value
+	for _, target := range []string{"mapstr", "struct", "mapany", "mapslice"} {
+		out = append(out, &c04FmCase{Kind: "fmap", Target: target, Sink: "node", Consumer: "i", Sources: []c04FmSource{
+			{Key: "p0", Native: "s", Chunks: [][][2]string{ch("a", "nil"), ch("a", "good:x", "b", "good:y")}, Maps: ab}}})
+		out = append(out, &c04FmCase{Kind: "fmap", Target: target, Sink: "end", Sources: []c04FmSource{
+			{Key: "start", Chunks: [][][2]string{ch("a", "good:x"), ch("a", "nil", "b", "good:y")}, Maps: ab}}})
 	}
 	// string pieces spread over chunks that also carry other keys
 	out = append(out, &c04FmCase{Kind: "fmap", Target: "mapstr", Sink: "node", Consumer: "i", Sources: []c04FmSource{
